@@ -109,6 +109,8 @@ const EXTRA_PATHS: &[&str] = &[
     "examples/custom.rs", "examples/data.json", "examples/nested/more.rs", "src/notes.txt", "src/model/readme.md", "tests/it.rs",
     "benches/b.rs", "Cargo.toml", "README.md", "build.rs", "src/x.rs.bak", "src/.rs", "src/noext", "srcx/a.rs",
     "src/serde.rs", "src/model/owner.rs", "src/request/get_owner.rs", "examples/get_owner.rs", "lib.rs", "src/lib.rs.orig",
+    // the pre-directory module layout, and siblings of generated files under another extension
+    "src/model.rs", "src/request.rs", "src/model/owner.tmp", "src/lib.tmp", "src/request/mod.tmp", "examples/get_owner.tmp", "src/model/mod.rs.tmp",
 ];
 
 fn gen_content(rng: &mut Rng, hist: &mut Report) -> Vec<u8> {
